@@ -154,6 +154,11 @@ typedef unsigned long	UIInt;
 #else
 # define BINT_LG_RADIX		(bitsizeof(BIntS))
 #endif
+#if defined(ALDOR_VERIF) && defined(ALDOR_VERIF_BINT_LG_RADIX)
+/* Verification hook: select the digit size without turning debug output on. */
+# undef  BINT_LG_RADIX
+# define BINT_LG_RADIX		ALDOR_VERIF_BINT_LG_RADIX
+#endif
 #define BINT_RADIX		(((unsigned long) 1) << BINT_LG_RADIX)
 					/* Might not be representable! */
 #define BINT_RADIX_MASK		(BINT_RADIX - 1)
